@@ -1,1 +1,1111 @@
-//! C15: not implemented yet.
+//! C15 — Server access policy is enforced in order.
+//!
+//! Engine E-IN: the full cartesian product
+//!   client address x deny list x deny action x allow list x allow action x require-nts
+//!   x accepted-version set x request datagram
+//! is run through the real `Server::handle` (mock clock, real `KeySet`, counting
+//! `ServerStatHandler`, rate limiting off) and the answer is compared with a reference
+//! decision function written from the property statement.
+//!
+//! Requests are assembled at byte level and answers are inspected with a small harness
+//! side walker (header fields, extension-field walk, authenticator check with the
+//! crate's AES-SIV cipher), so the oracle does not depend on the packet decoder under
+//! test. List membership is computed with plain integer prefix arithmetic.
+//!
+//! This file also hosts the toolkit shared with C20 and C21 (same group): datagram
+//! builder, answer walker, mock clock, counting stat handler, configuration lattice.
+use std::collections::BTreeMap;
+use std::net::{IpAddr, Ipv4Addr, Ipv6Addr};
+use std::sync::atomic::{AtomicU64, Ordering};
+use std::sync::{Arc, RwLock};
+use std::time::Duration;
+
+use super::common::{self, Ctx};
+use crate::keyset::{DecodedServerCookie, KeySet, KeySetProvider};
+use crate::nts::AeadAlgorithm;
+use crate::packet::{AesSivCmac256, Cipher};
+use crate::server::{
+    FilterAction, FilterList, IpSubnet, Server, ServerAction, ServerConfig, ServerReason,
+    ServerResponse, ServerStatHandler,
+};
+use crate::system::{NtpServerInfo, NtpSnapshot, TimeSnapshot};
+use crate::{NtpClock, NtpDuration, NtpLeapIndicator, NtpTimestamp, NtpVersion};
+
+// ---------------------------------------------------------------------------------
+// shared toolkit
+// ---------------------------------------------------------------------------------
+
+/// What the mock clock reads (appears as transmit timestamp of a time answer).
+pub(crate) const CLOCK_NOW: u64 = 0xC10C_A11E_5EED_0001;
+/// Receive timestamp handed to `handle`.
+pub(crate) const RECV_TS: u64 = 0x4ECE_17ED_0000_0777;
+/// Client transmit timestamp / v5 client cookie in every request.
+pub(crate) const CLIENT_TAG: u64 = 0x0C11_E417_7A67_0042;
+
+pub(crate) const DRAFT_OK: &str = "draft-ietf-ntp-ntpv5-09";
+pub(crate) const DRAFT_OTHER: &str = "draft-ietf-ntp-ntpv5-08";
+
+const S2C_KEY: [u8; 32] = [0x11; 32];
+const C2S_KEY: [u8; 32] = [0x22; 32];
+
+pub(crate) fn s2c() -> AesSivCmac256 {
+    AesSivCmac256::new(S2C_KEY.into())
+}
+pub(crate) fn c2s() -> AesSivCmac256 {
+    AesSivCmac256::new(C2S_KEY.into())
+}
+
+#[derive(Clone)]
+pub(crate) struct MockClock {
+    pub now_calls: Arc<AtomicU64>,
+}
+
+impl MockClock {
+    pub(crate) fn new() -> Self {
+        MockClock {
+            now_calls: Arc::new(AtomicU64::new(0)),
+        }
+    }
+}
+
+impl NtpClock for MockClock {
+    type Error = std::io::Error;
+    fn now(&self) -> Result<NtpTimestamp, Self::Error> {
+        self.now_calls.fetch_add(1, Ordering::Relaxed);
+        Ok(NtpTimestamp::from_fixed_int(CLOCK_NOW))
+    }
+    fn set_frequency(&self, _freq: f64) -> Result<NtpTimestamp, Self::Error> {
+        panic!("verif: server steered the clock (set_frequency)");
+    }
+    fn get_frequency(&self) -> Result<f64, Self::Error> {
+        Ok(0.0)
+    }
+    fn step_clock(&self, _offset: NtpDuration) -> Result<NtpTimestamp, Self::Error> {
+        panic!("verif: server stepped the clock");
+    }
+    fn disable_ntp_algorithm(&self) -> Result<(), Self::Error> {
+        panic!("verif: server touched the clock discipline");
+    }
+    fn error_estimate_update(&self, _e: NtpDuration, _m: NtpDuration) -> Result<(), Self::Error> {
+        panic!("verif: server updated clock error estimates");
+    }
+    fn status_update(&self, _l: NtpLeapIndicator) -> Result<(), Self::Error> {
+        panic!("verif: server updated clock status");
+    }
+}
+
+pub(crate) type Reg = (u8, bool, ServerReason, ServerResponse);
+
+/// Counting statistics handler: records every `register` call.
+#[derive(Default)]
+pub(crate) struct Regs(pub Vec<Reg>);
+
+impl ServerStatHandler for Regs {
+    fn register(&mut self, version: u8, nts: bool, reason: ServerReason, response: ServerResponse) {
+        self.0.push((version, nts, reason, response));
+    }
+}
+
+pub(crate) fn server_info() -> Arc<RwLock<NtpServerInfo>> {
+    Arc::new(RwLock::new(NtpServerInfo {
+        time_snapshot: TimeSnapshot {
+            leap_indicator: NtpLeapIndicator::NoWarning,
+            ..Default::default()
+        },
+        ntp_snapshot: NtpSnapshot {
+            stratum: 2,
+            ..Default::default()
+        },
+    }))
+}
+
+/// Keys and cookies shared by all requests. The server key set is the deterministic
+/// `KeySet::new()` (all-zero key, id offset 1), so traces replay across processes.
+pub(crate) struct Keys {
+    pub keyset: Arc<KeySet>,
+    /// valid under `keyset`
+    pub cookie: Vec<u8>,
+    /// right key id, but sealed under a different master key
+    pub cookie_wrongkey: Vec<u8>,
+    /// key id the server does not have
+    pub cookie_unknown_id: Vec<u8>,
+}
+
+fn keyset_from_bytes(id_offset: u32, key: [u8; 64]) -> Arc<KeySet> {
+    let mut raw = Vec::new();
+    raw.extend_from_slice(&0u64.to_be_bytes());
+    raw.extend_from_slice(&id_offset.to_be_bytes());
+    raw.extend_from_slice(&0u32.to_be_bytes());
+    raw.extend_from_slice(&1u32.to_be_bytes());
+    raw.extend_from_slice(&key);
+    KeySetProvider::load(&mut &raw[..], 1).expect("keyset").0.get()
+}
+
+impl Keys {
+    pub(crate) fn new() -> Keys {
+        let keyset = Arc::new(KeySet::new());
+        let dc = DecodedServerCookie {
+            algorithm: AeadAlgorithm::AeadAesSivCmac256,
+            s2c: Box::new(s2c()),
+            c2s: Box::new(c2s()),
+        };
+        let cookie = keyset.encode_cookie(&dc);
+        let cookie_wrongkey = keyset_from_bytes(1, [0x55; 64]).encode_cookie(&dc);
+        let cookie_unknown_id = keyset_from_bytes(77, [0; 64]).encode_cookie(&dc);
+        Keys {
+            keyset,
+            cookie,
+            cookie_wrongkey,
+            cookie_unknown_id,
+        }
+    }
+}
+
+// ------------------------------- datagram builder --------------------------------
+
+#[derive(Clone, Copy, PartialEq, Eq, Debug, Hash)]
+pub(crate) enum Kind {
+    /// no NTS fields
+    Plain,
+    /// NTS fields, authenticates under the server's key set
+    NtsValid,
+    /// NTS authenticator present but it does not authenticate
+    NtsBad,
+}
+
+#[derive(Clone, Copy, PartialEq, Eq, Debug, Hash)]
+pub(crate) enum Form {
+    Well,
+    /// structurally broken (truncated, garbage, bad lengths, unknown version, …)
+    Malformed,
+    /// structurally fine NTPv5 packet of another draft (or without draft id)
+    OtherDraft,
+}
+
+#[derive(Clone, Debug)]
+pub(crate) struct Dgram {
+    pub name: String,
+    pub bytes: Vec<u8>,
+    /// version in the header (meaningful when `form == Well | OtherDraft`)
+    pub version: u8,
+    pub mode: u8,
+    pub kind: Kind,
+    pub form: Form,
+}
+
+pub(crate) fn hdr34(version: u8, mode: u8) -> Vec<u8> {
+    let mut b = vec![0u8; 48];
+    b[0] = (version << 3) | mode;
+    b[2] = 6; // poll
+    b[40..48].copy_from_slice(&CLIENT_TAG.to_be_bytes());
+    b
+}
+
+pub(crate) fn hdr5(mode: u8) -> Vec<u8> {
+    let mut b = vec![0u8; 48];
+    b[0] = (5 << 3) | mode;
+    b[2] = 6;
+    b[24..32].copy_from_slice(&CLIENT_TAG.to_be_bytes());
+    b
+}
+
+/// One extension field. v4: length field includes padding (multiple of 4).
+/// v5: length field is header + body, wire is padded to 4.
+pub(crate) fn ext(ty: u16, body: &[u8], v5: bool) -> Vec<u8> {
+    let mut out = Vec::new();
+    let padded = (body.len() + 3) / 4 * 4;
+    let len = if v5 { 4 + body.len() } else { 4 + padded };
+    out.extend_from_slice(&ty.to_be_bytes());
+    out.extend_from_slice(&(len as u16).to_be_bytes());
+    out.extend_from_slice(body);
+    out.resize(4 + padded, 0);
+    out
+}
+
+/// NTS authenticator-and-encrypted-extension-fields field over `aad`.
+pub(crate) fn nts_auth(aad: &[u8], plaintext: &[u8], cipher: &dyn Cipher, v5: bool) -> Vec<u8> {
+    let mut buf = plaintext.to_vec();
+    buf.resize(plaintext.len() + 64, 0);
+    let r = cipher.encrypt(&mut buf, plaintext.len(), aad).expect("encrypt");
+    let nonce = buf[..r.nonce_length].to_vec();
+    let ct = buf[r.nonce_length..r.nonce_length + r.ciphertext_length].to_vec();
+    let mut body = Vec::new();
+    body.extend_from_slice(&(nonce.len() as u16).to_be_bytes());
+    body.extend_from_slice(&(ct.len() as u16).to_be_bytes());
+    body.extend_from_slice(&nonce);
+    body.resize((body.len() + 3) / 4 * 4, 0);
+    body.extend_from_slice(&ct);
+    ext(0x0404, &body, v5)
+}
+
+pub(crate) const UID: [u8; 32] = [0xA5; 32];
+
+/// every mode; client mode first so the first trace of a class is the plainest one
+const MODES: [u8; 8] = [3, 0, 1, 2, 4, 5, 6, 7];
+
+fn nts_request(version: u8, mode: u8, cookie: Option<&[u8]>, draft: Option<&str>, extra: &[u8]) -> Vec<u8> {
+    let v5 = version == 5;
+    let mut p = if v5 { hdr5(mode) } else { hdr34(version, mode) };
+    p.extend(ext(0x0104, &UID, v5));
+    if let Some(c) = cookie {
+        p.extend(ext(0x0204, c, v5));
+    }
+    p.extend_from_slice(extra);
+    if let Some(d) = draft {
+        p.extend(ext(0xF5FF, d.as_bytes(), v5));
+    }
+    let auth = nts_auth(&p.clone(), &[], &c2s(), v5);
+    p.extend(auth);
+    p
+}
+
+fn dg(name: &str, bytes: Vec<u8>, version: u8, mode: u8, kind: Kind, form: Form) -> Dgram {
+    Dgram {
+        name: name.to_string(),
+        bytes,
+        version,
+        mode,
+        kind,
+        form,
+    }
+}
+
+/// The request alphabet D15. Every entry is labelled by construction (what the
+/// harness built), never by asking the decoder under test.
+pub(crate) fn alphabet(k: &Keys) -> Vec<Dgram> {
+    use Form::*;
+    use Kind::*;
+    let mut v = Vec::new();
+    // ---- plain requests, every mode ----
+    for ver in [3u8, 4] {
+        for mode in MODES {
+            v.push(dg(&format!("v{ver}.plain.m{mode}"), hdr34(ver, mode), ver, mode, Plain, Well));
+        }
+    }
+    for mode in MODES {
+        let mut p = hdr5(mode);
+        p.extend(ext(0xF5FF, DRAFT_OK.as_bytes(), true));
+        // NTPv5 only defines modes 3 and 4
+        let form = if mode == 3 || mode == 4 { Well } else { Malformed };
+        v.push(dg(&format!("v5.plain.m{mode}"), p, 5, mode, Plain, form));
+    }
+    {
+        let mut p = hdr34(4, 3);
+        p.extend(ext(0x0104, &UID, false));
+        v.push(dg("v4.plain.uid", p, 4, 3, Plain, Well));
+        let mut p = hdr34(4, 3);
+        p.extend(ext(0x2222, &[0x77; 28], false));
+        v.push(dg("v4.plain.unknown-ext", p, 4, 3, Plain, Well));
+        let mut p = hdr34(4, 3);
+        p.extend_from_slice(&[0x5A; 20]);
+        v.push(dg("v4.plain.mac20", p, 4, 3, Plain, Well));
+        let mut p = hdr34(3, 3);
+        p.extend_from_slice(&[0x5A; 20]);
+        v.push(dg("v3.plain.mac20", p, 3, 3, Plain, Well));
+        let mut p = hdr5(3);
+        p.extend(ext(0x0104, &UID, true));
+        p.extend(ext(0xF5FF, DRAFT_OK.as_bytes(), true));
+        v.push(dg("v5.plain.uid", p, 5, 3, Plain, Well));
+    }
+    // ---- NTS, authenticating ----
+    for mode in MODES {
+        let p = nts_request(4, mode, Some(&k.cookie), None, &[]);
+        v.push(dg(&format!("v4.nts.ok.m{mode}"), p, 4, mode, NtsValid, Well));
+    }
+    for mode in [3u8, 4] {
+        let p = nts_request(5, mode, Some(&k.cookie), Some(DRAFT_OK), &[]);
+        v.push(dg(&format!("v5.nts.ok.m{mode}"), p, 5, mode, NtsValid, Well));
+    }
+    {
+        let ph = ext(0x0304, &vec![0u8; k.cookie.len()], false);
+        let p = nts_request(4, 3, Some(&k.cookie), None, &ph);
+        v.push(dg("v4.nts.ok.placeholder", p, 4, 3, NtsValid, Well));
+    }
+    // ---- NTS, not authenticating ----
+    for mode in MODES {
+        let mut p = nts_request(4, mode, Some(&k.cookie), None, &[]);
+        let n = p.len();
+        p[n - 1] ^= 0x01; // last ciphertext (tag) byte
+        v.push(dg(&format!("v4.nts.badtag.m{mode}"), p, 4, mode, NtsBad, Well));
+    }
+    for mode in [3u8, 4] {
+        let p = nts_request(4, mode, Some(&k.cookie_wrongkey), None, &[]);
+        v.push(dg(&format!("v4.nts.wrongkey-cookie.m{mode}"), p, 4, mode, NtsBad, Well));
+    }
+    {
+        let p = nts_request(4, 3, Some(&k.cookie_unknown_id), None, &[]);
+        v.push(dg("v4.nts.unknown-id-cookie.m3", p, 4, 3, NtsBad, Well));
+        let p = nts_request(4, 3, None, None, &[]);
+        v.push(dg("v4.nts.nocookie.m3", p, 4, 3, NtsBad, Well));
+        let mut p = nts_request(4, 3, Some(&k.cookie), None, &[]);
+        p[2] ^= 0x01; // poll byte is part of the associated data
+        v.push(dg("v4.nts.aad-tamper.m3", p, 4, 3, NtsBad, Well));
+    }
+    for mode in [3u8, 4] {
+        let mut p = nts_request(5, mode, Some(&k.cookie), Some(DRAFT_OK), &[]);
+        let n = p.len();
+        p[n - 1] ^= 0x01;
+        v.push(dg(&format!("v5.nts.badtag.m{mode}"), p, 5, mode, NtsBad, Well));
+    }
+    {
+        let p = nts_request(5, 3, Some(&k.cookie_wrongkey), Some(DRAFT_OK), &[]);
+        v.push(dg("v5.nts.wrongkey-cookie.m3", p, 5, 3, NtsBad, Well));
+    }
+    // ---- other NTPv5 drafts ----
+    {
+        let mut p = hdr5(3);
+        p.extend(ext(0xF5FF, DRAFT_OTHER.as_bytes(), true));
+        v.push(dg("v5.otherdraft.plain.m3", p, 5, 3, Plain, OtherDraft));
+        v.push(dg("v5.nodraft.plain.m3", hdr5(3), 5, 3, Plain, OtherDraft));
+        let p = nts_request(5, 3, Some(&k.cookie), Some(DRAFT_OTHER), &[]);
+        v.push(dg("v5.otherdraft.nts.ok.m3", p, 5, 3, NtsValid, OtherDraft));
+        let mut p = nts_request(5, 3, Some(&k.cookie), Some(DRAFT_OTHER), &[]);
+        let n = p.len();
+        p[n - 1] ^= 0x01;
+        v.push(dg("v5.otherdraft.nts.badtag.m3", p, 5, 3, NtsBad, OtherDraft));
+        let mut p = nts_request(5, 3, Some(&k.cookie), None, &[]);
+        let n = p.len();
+        p[n - 1] ^= 0x01;
+        v.push(dg("v5.nodraft.nts.badtag.m3", p, 5, 3, NtsBad, OtherDraft));
+    }
+    // ---- malformed ----
+    v.push(dg("empty", vec![], 0, 0, Plain, Malformed));
+    v.push(dg("1byte", vec![0x23], 4, 3, Plain, Malformed));
+    v.push(dg("v3.trunc47", hdr34(3, 3)[..47].to_vec(), 3, 3, Plain, Malformed));
+    v.push(dg("v4.trunc47", hdr34(4, 3)[..47].to_vec(), 4, 3, Plain, Malformed));
+    v.push(dg("v5.trunc47", hdr5(3)[..47].to_vec(), 5, 3, Plain, Malformed));
+    for ver in [0u8, 1, 2, 6, 7] {
+        v.push(dg(&format!("ver{ver}.m3"), hdr34(ver, 3), ver, 3, Plain, Malformed));
+    }
+    v.push(dg("garbage-ff48", vec![0xFF; 48], 7, 7, Plain, Malformed));
+    v.push(dg("garbage-ff120", vec![0xFF; 120], 7, 7, Plain, Malformed));
+    {
+        // declared field length runs past the end of the datagram
+        let mut p = hdr34(4, 3);
+        p.extend_from_slice(&[0x01, 0x04, 0x00, 0x40]);
+        p.extend_from_slice(&[0xA5; 32]);
+        v.push(dg("v4.ext-len-overrun", p, 4, 3, Plain, Malformed));
+        // v4 field length not a multiple of four
+        let mut p = hdr34(4, 3);
+        p.extend_from_slice(&[0x01, 0x04, 0x00, 0x26]);
+        p.extend_from_slice(&[0xA5; 36]);
+        v.push(dg("v4.ext-len-unaligned", p, 4, 3, Plain, Malformed));
+        // field length smaller than its own header
+        let mut p = hdr34(4, 3);
+        p.extend_from_slice(&[0x01, 0x04, 0x00, 0x00]);
+        p.extend_from_slice(&[0xA5; 28]);
+        v.push(dg("v4.ext-len-zero", p, 4, 3, Plain, Malformed));
+        // valid NTS request cut in the middle of the authenticator
+        let p = nts_request(4, 3, Some(&k.cookie), None, &[]);
+        let n = p.len();
+        v.push(dg("v4.nts.trunc-auth", p[..n - 8].to_vec(), 4, 3, NtsValid, Malformed));
+        // NTPv3 has no extension fields; 36 trailing bytes are no MAC either
+        let mut p = hdr34(3, 3);
+        p.extend_from_slice(&[0x5A; 36]);
+        v.push(dg("v3.extra36", p, 3, 3, Plain, Malformed));
+        // NTPv5 header with reserved flag bits / undefined timescale
+        let mut p = hdr5(3);
+        p[14] = 0x80;
+        p.extend(ext(0xF5FF, DRAFT_OK.as_bytes(), true));
+        v.push(dg("v5.badflags.m3", p, 5, 3, Plain, Malformed));
+        let mut p = hdr5(3);
+        p[12] = 9;
+        p.extend(ext(0xF5FF, DRAFT_OK.as_bytes(), true));
+        v.push(dg("v5.badtimescale.m3", p, 5, 3, Plain, Malformed));
+        // broken v5 header in front of an undecryptable NTS field
+        let mut p = nts_request(5, 3, Some(&k.cookie), Some(DRAFT_OK), &[]);
+        let n = p.len();
+        p[n - 1] ^= 1;
+        p[14] = 0x80;
+        v.push(dg("v5.badflags.nts.badtag.m3", p, 5, 3, NtsBad, Malformed));
+    }
+    v
+}
+
+// --------------------------------- answer walker ---------------------------------
+
+#[derive(Clone, Copy, PartialEq, Eq, Debug, Hash, PartialOrd, Ord)]
+pub(crate) enum Ans {
+    None,
+    Time,
+    Deny,
+    Nak,
+    Rate,
+    /// something that is none of the above (wrong version/mode, unknown kiss code, short)
+    Odd,
+}
+
+impl Ans {
+    pub(crate) fn tag(self) -> &'static str {
+        match self {
+            Ans::None => "none",
+            Ans::Time => "time",
+            Ans::Deny => "deny",
+            Ans::Nak => "nak",
+            Ans::Rate => "rate",
+            Ans::Odd => "odd",
+        }
+    }
+    pub(crate) fn bit(self) -> u8 {
+        1 << (self as u8)
+    }
+}
+
+#[derive(Clone, Debug, PartialEq, Eq)]
+pub(crate) struct Seen {
+    pub ans: Ans,
+    /// `Some(verifies)` when the answer carries an NTS authenticator field
+    pub auth: Option<bool>,
+    /// a non-time answer that nevertheless contains the clock reading / receive time
+    pub leaks_time: bool,
+    pub len: usize,
+}
+
+fn contains(h: &[u8], needle: &[u8]) -> bool {
+    h.windows(needle.len()).any(|w| w == needle)
+}
+
+/// Classify the answer to a request of header version `req_version`.
+pub(crate) fn classify(resp: Option<&[u8]>, req_version: u8) -> Seen {
+    let Some(r) = resp else {
+        return Seen {
+            ans: Ans::None,
+            auth: None,
+            leaks_time: false,
+            len: 0,
+        };
+    };
+    let mut seen = Seen {
+        ans: Ans::Odd,
+        auth: None,
+        leaks_time: false,
+        len: r.len(),
+    };
+    if r.len() < 48 {
+        return seen;
+    }
+    let version = (r[0] >> 3) & 7;
+    let mode = r[0] & 7;
+    let stratum = r[1];
+    let v5 = version == 5;
+    if version == req_version && mode == 4 && (3..=5).contains(&version) {
+        seen.ans = if stratum != 0 {
+            Ans::Time
+        } else if v5 {
+            let authnak = r[15] & 0x04 != 0;
+            let never = r[2] == 0x7F;
+            match (authnak, never) {
+                (true, false) => Ans::Nak,
+                (false, true) => Ans::Deny,
+                (false, false) => Ans::Rate,
+                (true, true) => Ans::Odd,
+            }
+        } else {
+            match &r[12..16] {
+                b"DENY" => Ans::Deny,
+                b"NTSN" => Ans::Nak,
+                b"RATE" => Ans::Rate,
+                _ => Ans::Odd,
+            }
+        };
+    }
+    if seen.ans != Ans::Time {
+        seen.leaks_time =
+            contains(r, &CLOCK_NOW.to_be_bytes()) || contains(r, &RECV_TS.to_be_bytes());
+    } else if r[40..48] != CLOCK_NOW.to_be_bytes() || r[32..40] != RECV_TS.to_be_bytes() {
+        // "time" that is not the server's time
+        seen.ans = Ans::Odd;
+    }
+    // extension-field walk: look for the NTS authenticator
+    if version != 3 {
+        let mut off = 48usize;
+        while off + 4 <= r.len() {
+            let ty = u16::from_be_bytes([r[off], r[off + 1]]);
+            let flen = u16::from_be_bytes([r[off + 2], r[off + 3]]) as usize;
+            if flen < 4 {
+                break;
+            }
+            let wire = (flen + 3) / 4 * 4;
+            if off + wire > r.len() {
+                break;
+            }
+            if ty == 0x0404 {
+                let body = &r[off + 4..off + flen];
+                let ok = (|| {
+                    if body.len() < 4 {
+                        return false;
+                    }
+                    let nl = u16::from_be_bytes([body[0], body[1]]) as usize;
+                    let cl = u16::from_be_bytes([body[2], body[3]]) as usize;
+                    let ns = 4;
+                    let cs = 4 + (nl + 3) / 4 * 4;
+                    if ns + nl > body.len() || cs + cl > body.len() {
+                        return false;
+                    }
+                    s2c().decrypt(&body[ns..ns + nl], &body[cs..cs + cl], &r[..off]).is_ok()
+                })();
+                seen.auth = Some(ok);
+                break;
+            }
+            off += wire;
+        }
+    }
+    seen
+}
+
+// ------------------------------ configuration lattice ----------------------------
+
+pub(crate) type Net = (IpAddr, u8);
+
+fn net(s: &str) -> Net {
+    let (a, m) = s.split_once('/').unwrap();
+    (a.parse().unwrap(), m.parse().unwrap())
+}
+
+pub(crate) fn lists(thorough: bool) -> Vec<(&'static str, Vec<Net>)> {
+    let mut v = vec![
+        ("empty", vec![]),
+        ("all", vec![net("0.0.0.0/0"), net("::/0")]),
+        ("slash24", vec![net("10.1.2.0/24"), net("2001:db8:1:2::/64")]),
+        ("host", vec![net("10.1.2.77/32"), net("2001:db8:1:2::5/128")]),
+        (
+            "nested",
+            vec![net("10.1.0.0/16"), net("10.1.2.0/24"), net("10.1.2.77/32"), net("2001:db8::/32")],
+        ),
+        ("all-v4", vec![net("0.0.0.0/0")]),
+    ];
+    if thorough {
+        v.push(("all-v6", vec![net("::/0")]));
+        v.push(("upper-half", vec![net("10.1.2.128/25"), net("2001:db8:1:2:8000::/65")]));
+        v.push(("pair", vec![net("10.1.2.76/31"), net("2001:db8:1:2::4/127")]));
+    }
+    v
+}
+
+pub(crate) fn addresses(thorough: bool) -> Vec<IpAddr> {
+    let mut v: Vec<&str> = vec![
+        "10.1.2.3",
+        "10.1.2.255",
+        "10.1.3.0",
+        "10.1.2.77",
+        "192.0.2.1",
+        "2001:db8:1:2::5",
+        "2001:db8:1:3::5",
+        "::1",
+        "::ffff:10.1.2.3",
+        "::ffff:10.1.2.77",
+        "::ffff:10.1.3.0",
+        "::ffff:192.0.2.1",
+    ];
+    if thorough {
+        v.extend([
+            "10.1.1.255",
+            "10.1.2.0",
+            "10.1.2.76",
+            "10.1.2.78",
+            "10.1.2.127",
+            "10.1.2.128",
+            "10.0.255.255",
+            "10.2.0.0",
+            "2001:db8:1:1:ffff:ffff:ffff:ffff",
+            "2001:db8:1:2::",
+            "2001:db8:1:2::4",
+            "2001:db8:1:2::6",
+            "2001:db8:1:2:8000::",
+            "2001:db8:1:2:7fff:ffff:ffff:ffff",
+            "2001:db9::",
+            "::ffff:10.1.2.255",
+            "::ffff:10.1.2.76",
+            "::ffff:10.1.2.128",
+            "::10.1.2.3",
+        ]);
+    }
+    v.into_iter().map(|s| s.parse().unwrap()).collect()
+}
+
+/// Reference list membership: IPv4-mapped IPv6 client addresses count as the IPv4
+/// address; a subnet only contains addresses of its own family.
+pub(crate) fn listed(list: &[Net], a: IpAddr) -> bool {
+    let a = match a {
+        IpAddr::V6(x) => {
+            let o = x.octets();
+            if o[..10].iter().all(|b| *b == 0) && o[10] == 0xff && o[11] == 0xff {
+                IpAddr::V4(Ipv4Addr::new(o[12], o[13], o[14], o[15]))
+            } else {
+                a
+            }
+        }
+        v4 => v4,
+    };
+    list.iter().any(|(n, m)| match (n, a) {
+        (IpAddr::V4(n), IpAddr::V4(x)) => {
+            let (n, x) = (u32::from_be_bytes(n.octets()) as u64, u32::from_be_bytes(x.octets()) as u64);
+            *m == 0 || (n ^ x) >> (32 - *m as u32) == 0
+        }
+        (IpAddr::V6(n), IpAddr::V6(x)) => {
+            let (n, x) = (u128::from_be_bytes(n.octets()), u128::from_be_bytes(x.octets()));
+            *m == 0 || (n ^ x) >> (128 - *m as u32) == 0
+        }
+        _ => false,
+    })
+}
+
+#[derive(Clone, Copy, PartialEq, Eq, Debug, Hash)]
+pub(crate) enum Act {
+    Ignore,
+    Deny,
+}
+
+impl Act {
+    fn real(self) -> FilterAction {
+        match self {
+            Act::Ignore => FilterAction::Ignore,
+            Act::Deny => FilterAction::Deny,
+        }
+    }
+    fn ch(self) -> char {
+        match self {
+            Act::Ignore => 'i',
+            Act::Deny => 'd',
+        }
+    }
+    fn from_ch(c: &str) -> Option<Act> {
+        match c {
+            "i" => Some(Act::Ignore),
+            "d" => Some(Act::Deny),
+            _ => None,
+        }
+    }
+}
+
+/// One policy configuration, in harness terms.
+#[derive(Clone, Debug)]
+pub(crate) struct Policy {
+    pub deny_name: &'static str,
+    pub deny: Vec<Net>,
+    pub deny_act: Act,
+    pub allow_name: &'static str,
+    pub allow: Vec<Net>,
+    pub allow_act: Act,
+    pub require_nts: Option<Act>,
+    /// bit (v-3) set <=> version v accepted
+    pub versions: u8,
+    pub cache_size: usize,
+    pub cutoff: Duration,
+}
+
+impl Policy {
+    pub(crate) fn accepts(&self, v: u8) -> bool {
+        (3..=5).contains(&v) && self.versions & (1 << (v - 3)) != 0
+    }
+
+    pub(crate) fn server_config(&self) -> ServerConfig {
+        let subnets = |l: &[Net]| l.iter().map(|(a, m)| IpSubnet { addr: *a, mask: *m }).collect();
+        let mut accepted = Vec::new();
+        for (v, nv) in [(3u8, NtpVersion::V3), (4, NtpVersion::V4), (5, NtpVersion::V5)] {
+            if self.accepts(v) {
+                accepted.push(nv);
+            }
+        }
+        ServerConfig {
+            denylist: FilterList {
+                filter: subnets(&self.deny),
+                action: self.deny_act.real(),
+            },
+            allowlist: FilterList {
+                filter: subnets(&self.allow),
+                action: self.allow_act.real(),
+            },
+            rate_limiting_cache_size: self.cache_size,
+            rate_limiting_cutoff: self.cutoff,
+            require_nts: self.require_nts.map(Act::real),
+            accepted_versions: accepted,
+        }
+    }
+
+    pub(crate) fn server(&self, keys: &Keys) -> (Server<MockClock>, MockClock) {
+        let clock = MockClock::new();
+        (
+            Server::new_internal(self.server_config(), clock.clone(), server_info(), keys.keyset.clone()),
+            clock,
+        )
+    }
+
+    pub(crate) fn trace(&self) -> String {
+        format!(
+            "dl={};da={};al={};aa={};nts={};ver={};cs={};co={}",
+            self.deny_name,
+            self.deny_act.ch(),
+            self.allow_name,
+            self.allow_act.ch(),
+            match self.require_nts {
+                None => 'n',
+                Some(a) => a.ch(),
+            },
+            self.versions,
+            self.cache_size,
+            self.cutoff.as_secs(),
+        )
+    }
+
+    /// Inverse of `trace` (list names are looked up in the thorough list set).
+    pub(crate) fn parse(fields: &BTreeMap<String, String>) -> Option<Policy> {
+        let ls = lists(true);
+        let find = |n: &str| ls.iter().find(|(name, _)| *name == n).cloned();
+        let (deny_name, deny) = find(fields.get("dl")?)?;
+        let (allow_name, allow) = find(fields.get("al")?)?;
+        Some(Policy {
+            deny_name,
+            deny,
+            deny_act: Act::from_ch(fields.get("da")?)?,
+            allow_name,
+            allow,
+            allow_act: Act::from_ch(fields.get("aa")?)?,
+            require_nts: match fields.get("nts")?.as_str() {
+                "n" => None,
+                o => Some(Act::from_ch(o)?),
+            },
+            versions: fields.get("ver")?.parse().ok()?,
+            cache_size: fields.get("cs").and_then(|s| s.parse().ok()).unwrap_or(0),
+            cutoff: Duration::from_secs(fields.get("co").and_then(|s| s.parse().ok()).unwrap_or(0)),
+        })
+    }
+}
+
+pub(crate) fn parse_fields(trace: &str) -> BTreeMap<String, String> {
+    trace
+        .split(';')
+        .filter_map(|kv| kv.split_once('='))
+        .map(|(k, v)| (k.trim().to_string(), v.trim().to_string()))
+        .collect()
+}
+
+/// All policies of the lattice (rate limiting off).
+pub(crate) fn policies(thorough: bool) -> Vec<Policy> {
+    let ls = lists(thorough);
+    let mut out = Vec::new();
+    for (dn, dl) in &ls {
+        for da in [Act::Ignore, Act::Deny] {
+            for (an, al) in &ls {
+                for aa in [Act::Ignore, Act::Deny] {
+                    for rn in [None, Some(Act::Ignore), Some(Act::Deny)] {
+                        for versions in 0u8..8 {
+                            out.push(Policy {
+                                deny_name: dn,
+                                deny: dl.clone(),
+                                deny_act: da,
+                                allow_name: an,
+                                allow: al.clone(),
+                                allow_act: aa,
+                                require_nts: rn,
+                                versions,
+                                cache_size: 0,
+                                cutoff: Duration::ZERO,
+                            });
+                        }
+                    }
+                }
+            }
+        }
+    }
+    out
+}
+
+pub(crate) struct Outcome {
+    pub resp: Option<Vec<u8>>,
+    pub regs: Vec<Reg>,
+    pub panic: Option<String>,
+}
+
+/// One call into the real `Server::handle`.
+pub(crate) fn run_handle(server: &mut Server<MockClock>, addr: IpAddr, dgram: &[u8], buf: &mut [u8]) -> Outcome {
+    let mut regs = Regs::default();
+    let r = common::catch(|| {
+        match server.handle(addr, NtpTimestamp::from_fixed_int(RECV_TS), dgram, buf, &mut regs) {
+            ServerAction::Ignore => None,
+            ServerAction::Respond { message } => Some(message.to_vec()),
+        }
+    });
+    match r {
+        Ok(resp) => Outcome {
+            resp,
+            regs: regs.0,
+            panic: None,
+        },
+        Err(e) => Outcome {
+            resp: None,
+            regs: regs.0,
+            panic: Some(e),
+        },
+    }
+}
+
+// ---------------------------------------------------------------------------------
+// C15 reference decision function (from the statement)
+// ---------------------------------------------------------------------------------
+
+/// Allowed answer classes (bit set over `Ans`) and the clause of the statement that
+/// decides, for one (policy, address, datagram).
+pub(crate) fn reference(p: &Policy, addr: IpAddr, d: &Dgram) -> (u8, &'static str) {
+    let none = Ans::None.bit();
+    // "Malformed datagrams, non-client packets and requests in non-accepted NTP versions
+    //  are never answered"
+    match d.form {
+        Form::Malformed => return (none, "malformed"),
+        Form::OtherDraft => return (none, "other-draft"),
+        Form::Well => {}
+    }
+    if d.mode != 3 {
+        return (none, "non-client");
+    }
+    if !p.accepts(d.version) {
+        return (none, "version");
+    }
+    // "A client on the deny list, or not on the allow list, never receives time: with the
+    //  'ignore' action it receives nothing and with the 'deny' action at most a DENY kiss
+    //  code (checked in that order)"
+    if listed(&p.deny, addr) {
+        return match p.deny_act {
+            Act::Ignore => (none, "deny-list-ignore"),
+            Act::Deny => (none | Ans::Deny.bit(), "deny-list-deny"),
+        };
+    }
+    if !listed(&p.allow, addr) {
+        return match p.allow_act {
+            Act::Ignore => (none, "allow-list-ignore"),
+            Act::Deny => (none | Ans::Deny.bit(), "allow-list-deny"),
+        };
+    }
+    match d.kind {
+        // "plain requests never receive time when NTS is required"
+        Kind::Plain => match p.require_nts {
+            Some(Act::Ignore) => (none, "nts-required-ignore"),
+            Some(Act::Deny) => (none | Ans::Deny.bit(), "nts-required-deny"),
+            // "A well-formed, accepted-version request from a client that passes both lists
+            //  and is not rate-limited receives time"
+            None => (Ans::Time.bit(), "legit-plain"),
+        },
+        // "(for NTS: when it authenticates)"
+        Kind::NtsValid => (Ans::Time.bit(), "legit-nts"),
+        Kind::NtsBad => (none | Ans::Nak.bit(), "nts-unauthenticated"),
+    }
+}
+
+fn judge(
+    ctx: &Ctx,
+    p: &Policy,
+    addr: IpAddr,
+    d: &Dgram,
+    out: &Outcome,
+    tally: &mut BTreeMap<String, u64>,
+) -> Seen {
+    let trace = || format!("{};addr={};dg={}", p.trace(), addr, d.name);
+    let seen = classify(out.resp.as_deref(), d.version);
+    if let Some(e) = &out.panic {
+        ctx.violation("C15:handle-panic", format!("Server::handle panicked: {e}"), trace());
+        return seen;
+    }
+    let (allowed, why) = reference(p, addr, d);
+    *tally.entry(format!("out.{why}.{}", seen.ans.tag())).or_insert(0) += 1;
+    if allowed & seen.ans.bit() == 0 {
+        let want: Vec<&str> = [Ans::None, Ans::Time, Ans::Deny, Ans::Nak]
+            .iter()
+            .filter(|a| allowed & a.bit() != 0)
+            .map(|a| a.tag())
+            .collect();
+        // "never answered" clauses: one class per clause (the kind of answer is in the text);
+        // the other clauses: one class per (clause, wrong answer)
+        let class = if allowed == Ans::None.bit() && matches!(why, "malformed" | "other-draft" | "non-client" | "version") {
+            format!("C15:{why}-answered")
+        } else {
+            format!("C15:{why}:got-{}", seen.ans.tag())
+        };
+        ctx.violation(
+            &class,
+            format!(
+                "client {addr} sent {} ({:?}, v{} mode {}): statement allows {{{}}} ({why}), server answered {} ({} bytes)",
+                d.name,
+                d.kind,
+                d.version,
+                d.mode,
+                want.join("|"),
+                seen.ans.tag(),
+                seen.len
+            ),
+            trace(),
+        );
+    }
+    if seen.leaks_time {
+        ctx.violation(
+            &format!("C15:{}-answer-carries-time", seen.ans.tag()),
+            format!("a {} answer to {addr} contains the server clock reading or receive time", seen.ans.tag()),
+            trace(),
+        );
+    }
+    if seen.ans == Ans::Time {
+        match (d.kind, seen.auth) {
+            // an NTS client cannot use an answer whose authenticator does not verify
+            (Kind::NtsValid, Some(true)) | (Kind::Plain, None) => {}
+            (Kind::NtsValid, a) => ctx.violation(
+                "C15:nts-time-not-authenticated",
+                format!("time answer to authenticated NTS request {} has authenticator {a:?}", d.name),
+                trace(),
+            ),
+            _ => {}
+        }
+    }
+    seen
+}
+
+fn replay(ctx: &Ctx, trace: &str) -> String {
+    let keys = Keys::new();
+    let f = parse_fields(trace);
+    let Some(p) = Policy::parse(&f) else {
+        return format!("unparsable trace {trace:?}");
+    };
+    let Some(addr) = f.get("addr").and_then(|a| a.parse::<IpAddr>().ok()) else {
+        return "bad addr".into();
+    };
+    let alpha = alphabet(&keys);
+    let Some(d) = alpha.iter().find(|d| Some(&d.name) == f.get("dg")) else {
+        return "unknown datagram".into();
+    };
+    let (mut server, _clock) = p.server(&keys);
+    let mut buf = vec![0u8; 1024];
+    let out = run_handle(&mut server, addr, &d.bytes, &mut buf);
+    let mut tally = BTreeMap::new();
+    let seen = judge(ctx, &p, addr, d, &out, &mut tally);
+    let (allowed, why) = reference(&p, addr, d);
+    format!(
+        "request={} ({} bytes, {:?}/{:?}) clause={why} allowed_mask={allowed:#04x} answer={} len={} auth={:?} regs={:?} panic={:?}",
+        d.name,
+        d.bytes.len(),
+        d.kind,
+        d.form,
+        seen.ans.tag(),
+        seen.len,
+        seen.auth,
+        out.regs,
+        out.panic
+    )
+}
+
+/// Machinery self-check: the labels the harness gives its own datagrams must be
+/// reachable (a mislabelled alphabet would make verdicts meaningless).
+fn self_check(ctx: &Ctx, keys: &Keys, alpha: &[Dgram]) -> bool {
+    let open = Policy {
+        deny_name: "empty",
+        deny: vec![],
+        deny_act: Act::Deny,
+        allow_name: "all",
+        allow: lists(false)[1].1.clone(),
+        allow_act: Act::Ignore,
+        require_nts: None,
+        versions: 7,
+        cache_size: 0,
+        cutoff: Duration::ZERO,
+    };
+    let (mut server, _c) = open.server(keys);
+    let mut ok = true;
+    let mut names = std::collections::BTreeSet::new();
+    for d in alpha {
+        if !names.insert(d.name.clone()) {
+            ctx.cap_hit(&format!("machinery: duplicate datagram name {}", d.name));
+            ok = false;
+        }
+    }
+    // the valid cookie must decode under the server key set and the others must not
+    if keys.keyset.decode_cookie(&keys.cookie).is_err()
+        || keys.keyset.decode_cookie(&keys.cookie_wrongkey).is_ok()
+        || keys.keyset.decode_cookie(&keys.cookie_unknown_id).is_ok()
+    {
+        ctx.cap_hit("machinery: cookie fixtures do not have the intended validity");
+        ok = false;
+    }
+    // the harness' own authenticator must verify with the harness walker (round trip of
+    // builder and walker without the decoder under test)
+    let probe = nts_auth(b"aad", &[], &s2c(), false);
+    let mut fake = hdr34(4, 4);
+    fake[1] = 2;
+    fake[32..40].copy_from_slice(&RECV_TS.to_be_bytes());
+    fake[40..48].copy_from_slice(&CLOCK_NOW.to_be_bytes());
+    let auth = nts_auth(&fake.clone(), &[], &s2c(), false);
+    fake.extend(auth);
+    let s = classify(Some(&fake), 4);
+    if s.ans != Ans::Time || s.auth != Some(true) || probe.len() != 40 {
+        ctx.cap_hit("machinery: builder/walker round trip failed");
+        ok = false;
+    }
+    let _ = &mut server;
+    ok
+}
+
+#[test]
+fn check() {
+    let ctx = Ctx::new("C15");
+    if let Some(t) = common::replay_trace() {
+        let a = replay(&ctx, &t);
+        let b = replay(&ctx, &t);
+        common::report_replay("C15", &a, &b, ctx.violation_count() > 0);
+        return;
+    }
+    let thorough = !ctx.quick();
+    let keys = Keys::new();
+    let alpha = alphabet(&keys);
+    let addrs = addresses(thorough);
+    let pols = policies(thorough);
+    ctx.rule(
+        "full cartesian product: client address (IPv4, IPv6, IPv4-mapped; inside / on the edge of / outside the \
+         configured subnets) x deny list x deny action x allow list x allow action x require-nts {off,ignore,deny} x \
+         every subset of accepted versions {3,4,5} x request datagram (byte-built: plain v3/v4/v5 in every mode 0..7, \
+         with UID/unknown field/MAC; NTS with valid cookie in every mode; NTS with bad tag in every mode, wrong-key / \
+         unknown-id / missing cookie, tampered associated data; NTPv5 of another draft or without draft id; truncated, \
+         garbage, unknown versions, broken field lengths, broken v5 header). quick = base factor sets, thorough = \
+         extended address and list sets. Distinct & non-trivial = a (policy, address, datagram) triple whose datagram \
+         is a well-formed client-mode request (so the policy, not the parser, decides).",
+    );
+    ctx.assume("IPv4-mapped IPv6 client addresses are matched as IPv4; a subnet only contains addresses of its own family (same reading as C31)");
+    ctx.assume("'never answered' for NTPv5 covers requests of another draft / without draft identification (this implementation speaks exactly one draft)");
+    ctx.assume("the 'ignore'/'deny' reading of the list actions also applies to require-nts (ignore: nothing, deny: at most DENY)");
+    ctx.assume("rate limiting is off in this check (cache size 0); its interaction with the lists is C20");
+    ctx.assume("a request that carries an NTS authenticator that does not verify may be answered with nothing or an NTS NAK (never time) when the client passes the lists");
+    if !self_check(&ctx, &keys, &alpha) {
+        ctx.exhaustive(false);
+        ctx.finish();
+        return;
+    }
+    ctx.set("factor.addresses", addrs.len() as u64);
+    ctx.set("factor.policies", pols.len() as u64);
+    ctx.set("factor.datagrams", alpha.len() as u64);
+    ctx.set("factor.lists", lists(thorough).len() as u64);
+    let na = addrs.len() as u64;
+    let nd = alpha.len() as u64;
+    common::par_for(pols.len() as u64, 8, |pi| {
+        let p = &pols[pi as usize];
+        let (mut server, _clock) = p.server(&keys);
+        let mut buf = vec![0u8; 1024];
+        let mut tally: BTreeMap<String, u64> = BTreeMap::new();
+        let mut hashes = Vec::new();
+        for (ai, addr) in addrs.iter().enumerate() {
+            for (di, d) in alpha.iter().enumerate() {
+                let out = run_handle(&mut server, *addr, &d.bytes, &mut buf);
+                let seen = judge(&ctx, p, *addr, d, &out, &mut tally);
+                if d.form == Form::Well && d.mode == 3 {
+                    hashes.push(common::hash_of(&(pi, ai, di)));
+                }
+                if pi % 997 == 5 && ai == 3 && di % 17 == 2 {
+                    ctx.sample(format!("{};addr={};dg={} -> {}", p.trace(), addr, d.name, seen.ans.tag()));
+                }
+            }
+        }
+        ctx.distinct_many(hashes);
+        ctx.add("evaluations", na * nd);
+        ctx.add("transitions", na * nd);
+        ctx.add("states", 1);
+        for (k, n) in tally {
+            ctx.add(&k, n);
+        }
+    });
+    ctx.exhaustive(true);
+    ctx.finish();
+}
